@@ -74,6 +74,14 @@ def geometries(rng, polys, n):
     mid = min(rings, key=lambda r: (sum(x for x, y in r) / len(r) - cx) ** 2 + (sum(y for x, y in r) / len(r) - cy) ** 2)
     hx0, hx1 = min(x for x, y in mid) - 0.0625, max(x for x, y in mid) + 0.0625
     hy0, hy1 = min(y for x, y in mid) - 0.0625, max(y for x, y in mid) + 0.0625
+    # regions with a hole (an interior ring): everything except the open inside of a box - a pinhole inside the middle cell,
+    # and a hole a little larger than that cell (the cell lies in the hole, its neighbours are cut by the hole's ring)
+    cover = box(x0_ - 1, y0_ - 1, x1_ + 1, y1_ + 1)
+    mcx, mcy = sum(x for x, y in mid) / len(mid), sum(y for x, y in mid) / len(mid)
+    import shapely as _sh
+    rp = _sh.Polygon(mid).representative_point()
+    out.append(('pinhole', [('holed', (cover, box(rp.x - 0.015625, rp.y - 0.015625, rp.x + 0.015625, rp.y + 0.015625)))]))
+    out.append(('hole_around_one_cell', [('holed', (cover, box(hx0, hy0, hx1, hy1)))]))
     out.append(('around_one_cell', [('ring', box(x0_ - 1, y0_ - 1, hx0, y1_ + 1)), ('ring', box(hx1, y0_ - 1, x1_ + 1, y1_ + 1)),
                                     ('ring', box(hx0, y0_ - 1, hx1, hy0)), ('ring', box(hx0, hy1, hx1, y1_ + 1))]))
     for _ in range(n):
@@ -118,7 +126,9 @@ def geometries(rng, polys, n):
 def to_shapely(parts):
     gs = []
     for kind, coords in parts:
-        if kind == 'ring':
+        if kind == 'holed':
+            gs.append(Polygon(coords[0], [coords[1]]))
+        elif kind == 'ring':
             gs.append(Polygon(coords))
         elif kind == 'line':
             gs.append(LineString(coords))
@@ -134,7 +144,9 @@ def to_shapely(parts):
 def hits_expr(parts, n):
     terms = []
     for kind, coords in parts:
-        if kind == 'ring':
+        if kind == 'holed':
+            terms.append(f'hits_holed ps {pm.ring_literal(coords[0])} {pm.ring_literal(coords[1])}')
+        elif kind == 'ring':
             terms.append(f'hits_ring ps {pm.ring_literal(coords)}')
         elif kind == 'line':
             terms.append(f'hits_line ps {pm.ring_literal(coords)}')
